@@ -36,6 +36,12 @@ CHECKS = {
          "L1 / Linf exactly and p-th powers for p = 2, 3 as rationals; Nodes(n) / Edges(n) from the statement; node weights of loaded profiles.", "0.7 / notes/C18_C19_report.md"),
  "C20": ("TLC: MC_Validation (decision table total, ok iff no precondition violated) + call-level trace validation of single-violation and boundary requests to every constructor / helper against Validation.tla",
          "One named predicate per documented precondition; every request violates exactly one (smallest step and grossly, any ballot position) or sits on the accepted side of the boundary; the outcome class is compared by TLC.", "5 C20"),
+ "C11": ("TLC: MC_ProfileADT (condense / equality / addition laws over sequences of weighted ballots, with negative controls) + call-level trace validation of Ballot / PreferenceProfile operations against ProfileADT.tla",
+         "A profile is a *sequence* in the value model, so order independence is checked, not assumed; every operation's projected result (and the same multiset in several orders) is compared by TLC.", "0.7 / notes/C11_C12_report.md"),
+ "C12": ("TLC: MC_ProfileADT removal / expansion invariants + call-level trace validation of remove_cand, add_missing_cands, expand_tied_ballot, resolve_profile_ties and votekit.cleaning.* against ProfileADT.tla",
+         "Per-image-ranking weight conservation, order / grouping preservation and each-linearisation-once are decided by TLC on every recorded call (all removal sets, both flags, three input forms).", "0.7 / notes/C11_C12_report.md"),
+ "C14": ("TLC: MC_Generators (declarative Huntington-Hill exists / unique up to ties / monotone) + call-level trace validation of generate_profile outputs of all 16 generator variants against GenVerdict of Generators.tla",
+         "Structure is decided per run on seeded real random streams: total weight, whole weights, declared / unrepeated candidates, completeness class, short length, cumulative points, bloc sums, apportionment.", "0.7 / notes/C14_C15_report.md"),
  "C13": ("TLC trace validation of IRV/SNTV/SequentialRCV/TopTwo/Alaska runs against the compositions as defined in Election.tla",
          "The spec defines the aliases and composites as the documented compositions; recorded rounds must match them step by step on every path.", "5 C13"),
 }
